@@ -133,6 +133,11 @@ func readCSVToUDLChan(in io.Reader, cudL chan updownLine, cErr chan error, cRead
 		cudL <- udL
 	}
 
+	if header {
+		cErr <- errors.New("empty --target csv: is this the output of gofasta updown list?")
+		return
+	}
+
 	cReadDone <- true
 }
 
@@ -194,10 +199,14 @@ func readCSVToUDLList(in io.Reader) ([]updownLine, error) {
 			return snpsSorted[i] < snpsSorted[j]
 		})
 
-		udL := updownLine{id: record[0], snps: snps, snpsSorted: snpsSorted, snpsPos: snpPos, ambs: a, ambCount: amb_count}
+		udL := updownLine{id: record[0], idx: counter, snps: snps, snpsSorted: snpsSorted, snpsPos: snpPos, ambs: a, ambCount: amb_count}
 
 		LudL = append(LudL, udL)
 		counter++
+	}
+
+	if header {
+		return make([]updownLine, 0), errors.New("empty --query csv: is this file the output of gofasta updown list?")
 	}
 
 	return LudL, nil
